@@ -17,6 +17,7 @@ TITLES = {
     '_combine2_arrays': 'cross-file merge in data mode: adjacent arrays concatenated in order, otherwise returned as-is',
     '_combine_witness': 'reachability: a merge is reachable',
     '_read_glue': 'read(): range, file list, one shared mapping, len_only=False and sub_channel forwarded to every top-level directory; result = merge',
+    '_read_all_dirs': 'read() / get_continuous_blocks(): every top-level directory of the channel contributes, in any directory order, also when the blocks found so far already reach both ends of the request (interleaved sessions)',
     '_read_glue_errors': 'read(): inverted range / missing sub-channel refused with ValueError before touching files',
     '_blocks_glue': 'get_continuous_blocks(): same file list and range as read(), len_only=True (lengths == lengths of read blocks)',
     '_two_files': 'two files: blocks of both in file order, unreadable/vanished file skipped, each readable file opened once',
